@@ -319,7 +319,11 @@ def MonState.observe (m : MonState) (op : Op) (evs : List String) (post : Option
             | none => fails := fails ++ [("C07", "swap_takes_over")]
           | _, _ => pure ()
           m := { m with removedOnce := m.removedOnce ++ removes }
-        else if !removes.isEmpty || !states.isEmpty then fails := fails ++ [("C07", "old_serves_until_ready")]
+        else
+          if !removes.isEmpty || !states.isEmpty then fails := fails ++ [("C07", "old_serves_until_ready")]
+          -- a replacement whose connection attempt failed goes IDLE and waits to be told to connect again:
+          -- left alone it could never become READY and the channel would never be refreshed again (F23)
+          if st == .idle && !evs.contains s!"connect sc={sc}" then fails := fails ++ [("C07", "replacement_kept_connecting")]
       | none =>
         -- C03.5 nothing but a completed refresh removes a connection
         if !removes.isEmpty then fails := fails ++ [("C03", "remove_only_after_swap")]
